@@ -322,11 +322,47 @@ func c19Index(c *Ctx) {
 			fns = append(fns, f)
 		}
 	}
+	// the command loops of the two drivers split every input line into tokens: a token picked by a constant
+	// index, or a constant-bounded sub-list, needs a dominating length test just as much (variable indices of
+	// the option loops are left to the loop's own test)
+	driverFn := map[*ssa.Function]bool{}
+	for _, t := range [][3]string{{"pkg/engine/uci", "Driver", "process"}, {"pkg/engine/console", "Driver", "process"}} {
+		if f := c.find(t[0], t[1], t[2]); f != nil {
+			for _, g := range funcFamily(f) {
+				if !driverFn[g] {
+					driverFn[g] = true
+					fns = append(fns, g)
+				}
+			}
+		}
+	}
 	for _, fn := range fns {
 		for _, blk := range fn.Blocks {
 			for _, ins := range blk.Instrs {
 				var s, idx ssa.Value
 				switch x := ins.(type) {
+				case *ssa.Slice:
+					// tokens[a:b] with constant bounds over a []string
+					st, isSlice := x.X.Type().Underlying().(*types.Slice)
+					if !isSlice || !driverFn[fn] || !isStringType(st.Elem()) {
+						continue
+					}
+					need := int64(-1)
+					if x.High != nil {
+						if k, isC := constInt(x.High); isC {
+							need = k
+						}
+					} else if x.Low != nil {
+						if k, isC := constInt(x.Low); isC {
+							need = k
+						}
+					}
+					if need <= 0 {
+						continue
+					}
+					lb, _ := lenLowerBound(blk, x.X, nil)
+					r.Check(lb >= need, "R19-index", fmt.Sprintf("%s slice %s[..%d]", c.P.FuncName(fn), pathExpr(x.X), need), c.pos(x.Pos()), "", fmt.Sprintf("a sub-list up to %d needs len >= %d; dominating length tests give len >= %d: a shorter command line panics with 'slice bounds out of range' and takes the driver down", need, need, lb))
+					continue
 				case *ssa.IndexAddr:
 					if _, isSlice := x.X.Type().Underlying().(*types.Slice); !isSlice {
 						continue
@@ -349,6 +385,14 @@ func c19Index(c *Ctx) {
 					}
 				}
 				cons := fmt.Sprintf("%s index %s[%s]", c.P.FuncName(fn), pathExpr(s), pathExpr(idx))
+				if _, isC := constInt(idx); !isC && driverFn[fn] {
+					continue
+				}
+				if driverFn[fn] {
+					if st, ok := s.Type().Underlying().(*types.Slice); !ok || !isStringType(st.Elem()) {
+						continue
+					}
+				}
 				if k, isC := constInt(idx); isC {
 					lb, _ := lenLowerBound(blk, s, nil)
 					r.Check(lb > k, "R19-index", cons, c.pos(ins.Pos()), "", fmt.Sprintf("index %d needs len >= %d; dominating length tests give len >= %d", k, k+1, lb))
